@@ -392,7 +392,7 @@ FDW_STUBS = [STUB_FMT, "nix::unistd::write / nix::sys::uio::writev -> ghost devi
 for fn, q, props in [("c04_fdw_vectored_5_5", True, ["C04"]), ("c04_fdw_vectored_3_5", True, ["C04"]), ("c04_fdw_vectored_8_1", False, ["C04"]), ("c04_fdw_vectored_0_8", False, ["C04"]),
               ("c04_fdw_split4", True, ["C04", "C01"]), ("c04_fdw_split0", False, ["C04", "C01"]), ("c04_fdw_split12", False, ["C04", "C01"]), ("c04_fdw_split_edges", True, ["C04"]),
               ("c04_fdw_unbuffered_write", True, ["C04", "C01"]), ("c04_fdw_unbuffered_vectored", True, ["C04", "C01"]),
-              ("c04_fdw_write_from_buffered", True, ["C04"]), ("c04_fdw_write_from_at_buffered", False, ["C04"]), ("c04_fdw_write_from_unbuffered", False, ["C04"]),
+              ("c04_fdw_write_from_buffered", True, ["C04"]), ("c04_fdw_write_from_at_buffered", True, ["C04"]), ("c04_fdw_write_from_unbuffered", False, ["C04"]),
               ("c04_fdw_write_from_at_unbuffered", True, ["C04"]), ("c04_fdw_write_all_from_g3", False, ["C04"]), ("c04_fdw_write_all_from_g0", False, ["C04"]), ("c04_fdw_write_all_from_g8", False, ["C04"])]:
     reg(FDW, fn, props, flavour="real", tier="quick" if q else "thorough", timeout=900, mem=16,
         what="the REAL FuseDevWriter over a borrowed 12-byte buffer with canaries: " + fn[8:],
